@@ -15,6 +15,7 @@ pub mod c08;
 pub mod c09;
 pub mod c10;
 pub mod logparse;
+pub mod simchecks;
 
 pub struct WorkerCtx {
     pub tier: String,
